@@ -85,6 +85,8 @@ ATOMS = ["a", "b", "C", "k", "name", "id", "f", "/", "/", "//", "[", "]", "*", "
          "=", "!=", "~", "'", '"', " ", "v", "][", "[0]", "[*]", "[-1]", "[last()]", "==", "x y", "contains(", ")", ","]
 
 ALLOWED = ("KeyError", "IndexError", "ValueError", "TypeError", "SyntaxError")
+# defaults of the correspondence streams (the value model has no tuples: lists stand for them)
+B_DEFAULTS = [None, "D", 0, None, "D", ["D"], [None], [[]], {}, "", [1, 2], []]
 
 
 def soup(rng):
@@ -154,6 +156,28 @@ def in_known(c, detail=None):
     return None
 
 
+# defaults a caller may pass (fix C04-f: first() unwrapped a default that was a one-element list / tuple).  The first two are
+# tried on every case, of the others a case gets two, picked by its path text (or all with c["all_defaults"]).
+def other_defaults():
+    """fresh objects on every call: the oracle is IDENTITY (`first(miss, d) is d`, `get(miss, d) is d`)"""
+    return [["D"], ("D",), [None], [[]], {}, 0, "", [1, 2], []]
+
+
+def defaults_of(c):
+    import zlib
+
+    others = other_defaults()
+    if c.get("all_defaults"):
+        return ["DFLT", None] + others
+    h = zlib.crc32(c["xp"].encode("utf-8", "surrogatepass"))
+    i, j = h % len(others), (h // 16) % len(others)
+    return ["DFLT", None, others[i]] + ([others[j]] if j != i else [])
+
+
+def is_container(d):
+    return isinstance(d, (list, tuple, dict))
+
+
 def check_lookup(c):
     o = X.convert(c["tree"], c["mode"])
     before = enc_val(o)
@@ -169,31 +193,29 @@ def check_lookup(c):
         return {"path_resolves_to_another_value": repr(item[1])[:200], "want": repr(X.get_at(o, c["hit_pos"]))[:200]}
     if xp.startswith("?") and item[0] == "err":
         return {"qmark_item_access_raised": item[1]}
-    for d in ("DFLT", None):
+    for d in defaults_of(c):
         g = core.call(lambda: o.get(xp, d) if d is not None else o.get(xp))
         if g[0] != "ok":
-            return {"get_raised": g[1], "default": d}
+            return {"get_raised": g[1], "default": repr(d)}
         if enc_val(o) != before:
             return {"get_changed_tree": True}
-        want_d = "" if xp.startswith("?") else d
         if item[0] == "err":
-            if not same(g[1], want_d):
-                return {"get_returned": repr(g[1])[:200], "item_access_raised": item[1], "want_default": want_d}
+            # a miss: the caller's default ITSELF ('' for a '?' path), whatever value it is
+            if not (same(g[1], "") if xp.startswith("?") else g[1] is d):
+                return {"get_returned": repr(g[1])[:200], "item_access_raised": item[1], "want_default": repr(d)}
         else:
-            if xp.startswith("?") and same(item[1], ""):
-                pass
             if not same(g[1], item[1]):
                 return {"get_returned": repr(g[1])[:200], "item_access_returned": repr(item[1])[:200]}
         f = core.call(lambda: o.first(xp, d) if d is not None else o.first(xp))
         if f[0] != "ok":
-            return {"first_raised": f[1], "default": d}
+            return {"first_raised": f[1], "default": repr(d)}
         if enc_val(o) != before:
             return {"first_changed_tree": True}
-        if item[0] == "err" and not same(f[1], want_d):
-            return {"first_returned": repr(f[1])[:200], "item_access_raised": item[1], "want_default": want_d}
-        if item[0] == "ok" and d == "DFLT" and not xp.startswith("?") and same(f[1], "DFLT"):
+        if item[0] == "err" and not (same(f[1], "") if xp.startswith("?") else f[1] is d):
+            return {"first_returned": repr(f[1])[:200], "item_access_raised": item[1], "want_default": repr(d)}
+        if item[0] == "ok" and not xp.startswith("?") and (d == "DFLT" or is_container(d)) and f[1] is d:
             # the path resolves (item access and get return a value): first must not answer with the default
-            return {"first_returned_default": True, "item_access_returned": repr(item[1])[:200]}
+            return {"first_returned_default": repr(d), "item_access_returned": repr(item[1])[:200]}
     return None
 
 
@@ -464,7 +486,7 @@ def check_long(c):
         return {"qmark_item_access_raised": q[1], "steps": steps}
     if not (q[1] is want if item[0] == "ok" else same(q[1], "")):
         return {"qmark_item_access_returned": repr(q[1])[:100], "item_access": item[0], "steps": steps}
-    for d in ("DFLT", None):
+    for d in ["DFLT", None, ["D"], other_defaults()[steps % 9]]:     # a long lookup is expensive: four defaults
         g = core.call(lambda: o.get(xp, d) if d is not None else o.get(xp))
         f = core.call(lambda: o.first(xp, d) if d is not None else o.first(xp))
         if g[0] != "ok":
@@ -478,10 +500,10 @@ def check_long(c):
             if f[1] is not unwrapped:
                 return {"first_returned": repr(f[1])[:100], "steps": steps}
         else:
-            if not same(g[1], d):
-                return {"get_returned": repr(g[1])[:100], "item_access_raised": item[1], "want_default": d, "steps": steps}
-            if not same(f[1], d):
-                return {"first_returned": repr(f[1])[:100], "item_access_raised": item[1], "want_default": d, "steps": steps}
+            if g[1] is not d:
+                return {"get_returned": repr(g[1])[:100], "item_access_raised": item[1], "want_default": repr(d), "steps": steps}
+            if f[1] is not d:
+                return {"first_returned": repr(f[1])[:100], "item_access_raised": item[1], "want_default": repr(d), "steps": steps}
     if flat_sig(o) != before:
         return {"lookup_changed_tree": True, "steps": steps}
     return None
@@ -598,7 +620,7 @@ def run(ctx):
     ctx.extra["exhaustive_subspace"] = "all strings of <= %d atoms over %d xpath atoms on %d fixed trees (dict root and list root)" % (k, len(atoms), len(fixed))
     cases = cases + ex
     rng = ctx.rng("kinds")
-    lk = [dict(c, kind=rng.choice("gif"), d=rng.choice([None, "D", 0])) for c in cases]
+    lk = [dict(c, kind=rng.choice("gif"), d=rng.choice(B_DEFAULTS)) for c in cases]
 
     def impl_get(c):
         o = X.convert(c["tree"], c["mode"])
@@ -627,7 +649,7 @@ def run(ctx):
         poss = [p for p, _ in X.positions(t) if p]
         base = X.render(rng, t, rng.choice(poss)) if poss and rng.random() < 0.9 else ""
         xp = rng.choice(["", "?"]) + base + "[new()]" + rng.choice(["", "", "/x", "[0]", "/..", "[new()]", "/*"])
-        ncases.append({"tree": t, "mode": rng.choice(["n0", "wrap"]), "xp": xp, "kind": rng.choice("gif"), "d": rng.choice([None, "D", 0])})
+        ncases.append({"tree": t, "mode": rng.choice(["n0", "wrap"]), "xp": xp, "kind": rng.choice("gif"), "d": rng.choice(B_DEFAULTS)})
     ctx.evaluate("lookup/new-step", ncases, check_lookup, in_known=in_known)
     ctx.correspond(
         "xp.get/new-step",
@@ -646,7 +668,7 @@ def run(ctx):
     ctx.evaluate("lookup/long", lcases, check_long,
                  nontrivial=lambda c: True)
     # B on the part below the interpreter's limit: the model resolves them like the implementation (small trees only)
-    lb = [dict(c, xp=long_xp(c), kind=rng.choice("gif"), d=rng.choice([None, "D"])) for c in lcases
+    lb = [dict(c, xp=long_xp(c), kind=rng.choice("gif"), d=rng.choice(B_DEFAULTS)) for c in lcases
           if c["long"]["kind"] == "updown" and long_case_parts(c)[2] <= SAFE_STEPS]
     ctx.correspond(
         "xp.get/long",
